@@ -109,14 +109,14 @@ impl TTLTicker {
                     }
                     has_not_expired
                 });
-                #[cfg(cached_verif)]
-                crate::cache::verif::sweep_done();
 
                 if !keep_running.load(Ordering::Acquire) {
                     info!("Shutting down TTLTicker");
                     drop(receiver);
                     break;
                 }
+                #[cfg(cached_verif)]
+                crate::cache::verif::sweep_done();
             }
         });
     }
